@@ -3,8 +3,8 @@
    the exhaustive run over the pairwise-reduced fields covers every path class). *)
 EXTENDS Cli, Json
 VARIABLES cfg, step
-Fields == <<"kind", "text", "threads", "parallel", "single", "inmem", "unc", "bs", "zooms", "style", "invoke", "bthreads", "binmem", "restrict">>
-Dom(f) == CASE f = "kind" -> {"bw", "bb"} [] f = "text" -> {1, 2, 3}
+Fields == <<"stdin", "kind", "text", "threads", "parallel", "single", "inmem", "unc", "bs", "zooms", "style", "invoke", "bthreads", "binmem", "restrict">>
+Dom(f) == CASE f = "stdin" -> {0, 1} [] f = "kind" -> {"bw", "bb"} [] f = "text" -> {1, 2, 3}
             [] f = "threads" -> {1, 2, 6, 16} [] f = "parallel" -> {"auto", "yes", "no"} [] f = "single" -> {0, 1}
             [] f = "inmem" -> {0, 1} [] f = "unc" -> {0, 1} [] f = "bs" -> {0, 2, 5} [] f = "zooms" -> {0, 1}
             [] f = "style" -> {"native", "ucsc"} [] f = "invoke" -> {"own", "multicall", "mixedcase"}
@@ -12,7 +12,7 @@ Dom(f) == CASE f = "kind" -> {"bw", "bb"} [] f = "text" -> {1, 2, 3}
 Init == cfg = <<>> /\ step = 1
 Next == step <= Len(Fields) /\ \E v \in Dom(Fields[step]) : cfg' = Append(cfg, v) /\ step' = step + 1
 Done == step > Len(Fields)
-Rec == [kind |-> cfg[1], text |-> cfg[2], threads |-> cfg[3], parallel |-> cfg[4], single |-> cfg[5], inmem |-> cfg[6], unc |-> cfg[7],
-        bs |-> cfg[8], zooms |-> cfg[9], style |-> cfg[10], invoke |-> cfg[11], bthreads |-> cfg[12], binmem |-> cfg[13], restrict |-> cfg[14]]
+Rec == [stdin |-> cfg[1], kind |-> cfg[2], text |-> cfg[3], threads |-> cfg[4], parallel |-> cfg[5], single |-> cfg[6], inmem |-> cfg[7], unc |-> cfg[8],
+        bs |-> cfg[9], zooms |-> cfg[10], style |-> cfg[11], invoke |-> cfg[12], bthreads |-> cfg[13], binmem |-> cfg[14], restrict |-> cfg[15]]
 Emit == Done => PrintT(<<"REPLAY", ToJson([cfg |-> Rec, path |-> PathClass(Rec)])>>)
 =============================================================================
